@@ -80,6 +80,21 @@ theorem C19_roundTrip (c : RestConf) (o : RTOut) :
   · simp only [hl, ↓reduceIte, roundTrip, roundTrip_wrapAll]; cases o <;> rfl
   · simp only [hl, Bool.false_eq_true, ↓reduceIte, roundTrip_wrapAll, roundTrip]
 
+/-- every history of With/setter/Use/BuildMiddleware/copy steps on one RestConf: each build yields the
+    chain of the configuration at that moment — i.e. building has no memory and no effect -/
+theorem C19_build_history (h : List COp) : runConf zeroConf h = specBuildsFrom [] h := by
+  have gen : ∀ (h : List COp) (before : List Opt), runConf (newWith before) h = specBuildsFrom before h := by
+    intro h
+    induction h with
+    | nil => intro before; rfl
+    | cons op r ih =>
+      intro before
+      cases op with
+      | apply o => simp only [runConf, specBuildsFrom]; rw [← C19_last_option]; exact ih _
+      | build => simp only [runConf, specBuildsFrom, ih before]; rw [C19_last_wins before, C19_trace]
+      | copy => simp only [runConf, specBuildsFrom]; exact ih before
+  exact gen h []
+
 /-- headline: for every history of `Register`/`NewRest` calls started on the empty registry, each
     under `recover()`: `Register T` panics iff T was registered earlier in the history; `NewRest T`
     panics iff it was not, and otherwise returns the constructor of T's (only successful)
@@ -130,6 +145,11 @@ theorem C19_F_timeout_overflow_witness :
     (initClient (newWith [.timeout 10000000000])).timeout = -8446744073709551616 := by decide
 
 /-! non-vacuity -/
+example : runConf zeroConf [.apply (.use 1), .build, .apply (.enableLogging true), .build, .copy,
+      .apply (.enableLogging false), .apply (.use 2), .build] =
+    [[.enter (.mw 1), .enter .base, .exit .base, .exit (.mw 1)],
+     [.enter .log, .enter (.mw 1), .enter .base, .exit .base, .exit (.mw 1), .exit .log],
+     [.enter (.mw 1), .enter (.mw 2), .enter .base, .exit .base, .exit (.mw 2), .exit (.mw 1)]] := by decide
 example : inInt64 (newWith [.timeout 5, .baseURL "u", .timeout 0]).timeout ∧
     (initClient (newWith [.timeout 5, .baseURL "u", .timeout 0])).timeout = 0 := by
   refine ⟨⟨by decide, by decide⟩, by decide⟩
